@@ -90,7 +90,13 @@ def h2_history(draw: Any) -> Dict[str, Any]:
     steps = []
     for _ in range(draw(st.integers(1, 5))):
         kind = draw(st.sampled_from(["stream", "stream", "pause", "pause", "two_streams",
-                                     "terminated", "peer_loss", "rejected", "reset_stream"]))
+                                     "terminated", "peer_loss", "rejected", "reset_stream",
+                                     "ws_lingering"]))
+        if kind == "ws_lingering":
+            # a WebSocket stream the application has closed while its coroutine lives on stays
+            # among the connection's streams; a request next to it is in progress all the same
+            steps.append({"op": "ws_lingering", "delay": draw(st.sampled_from([3 * T, 10 * T]))})
+            continue
         if kind == "reset_stream":
             # the client gives up on its only open stream: no request in progress any more
             steps.append({"op": "reset_stream", "after": draw(st.sampled_from([0.0, T / 4, T]))})
@@ -454,6 +460,41 @@ async def run_h2(env: Any, case: Dict[str, Any], app: Any) -> Dict[str, Any]:
             await env.settle0()
             tm.idle(t_rst)
             tm.notes.append(f"client reset its only stream at {t_rst}")
+        elif op == "ws_lingering":
+            if tm.terminated_at is not None:
+                continue
+            app.programs["/wsl"] = [["recv"], ["send", {"type": "websocket.accept"}],
+                                    ["send", {"type": "websocket.close", "code": 1000}],
+                                    ["recv_disc"]]
+            try:
+                ws_sid = client.request(
+                    [(b":method", b"CONNECT"), (b":protocol", b"websocket"),
+                     (b":scheme", b"https"), (b":authority", b"x"), (b":path", b"/wsl"),
+                     (b"sec-websocket-version", b"13")], end_stream=False)
+            except Exception as e:
+                raise Violation("client_refused", repr(e), backend=env.backend)
+            tm.busy()
+            await env.settle0()
+            client.pump()
+            t0 = env.now()
+            open_stream(step["delay"])
+            await env.settle0()
+            nontrivial = True
+            await env.sleep(step["delay"] / 2)
+            client.pump()
+            if tm.check(where + " (request in progress next to the closed WebSocket)"):
+                break
+            await env.sleep(max(0.0, t0 + step["delay"] - env.now()))
+            client.pump()
+            try:  # the client lets go of the WebSocket stream: nothing is open any more
+                client.h2.reset_stream(ws_sid)
+                client.flush()
+            except Exception as e:
+                raise Violation("client_refused", repr(e), backend=env.backend)
+            t_rst = env.now()
+            await env.settle0()
+            tm.idle(t_rst)
+            tm.notes.append(f"lingering WebSocket stream reset at {t_rst}")
         elif op == "rejected":
             if tm.terminated_at is not None:
                 continue
